@@ -18,7 +18,9 @@ BOUNDS = ("Inductive step for invariant I2 (state.is_tool_active / is_coolant_ac
           "x which keyword parameters) x tool state {off, spin cw/ccw, power constant/dynamic} x "
           "coolant {off, mist, flood}. Solver over: numeric arguments (all reals, NaN, +-inf), "
           "integer arguments, current tool number (so 'same tool again' is included), tool-swap "
-          "mode flag, tool power, and whether a halt is pending.")
+          "mode flag, tool power, and whether a halt is pending. Plus TRUE "
+          "histories from a freshly constructed builder (no private pre-state): every pair of 22 calls "
+          "and every triple over a 10-call tool/coolant/halt alphabet, checked after every call.")
 ASSUMPTIONS = [
     "no bounds configured (bounds are C03/C06), no hooks, identity transform, position (1,2,3)",
     "argument-validation rules taken as documented: negative or non-finite numbers, OFF passed "
@@ -132,8 +134,76 @@ def _make(step, tool, coolant):
     return h
 
 
+def _make_history(seq):
+    """A TRUE history from a freshly constructed builder: nothing unsafe is ever emitted, a call is
+    refused with a state error only when the program so far really has the tool / coolant on, and
+    the flags follow the program."""
+    from gscrib import GCodeBuilder
+    from ..fixture import Rec
+    from ..refmachine import RefMachine
+    from .c07 import HIST
+
+    def core(vals):
+        from ..shims import TOKENS
+        if MODE.symbolic:
+            TOKENS.clear()
+        g = GCodeBuilder(line_endings="\\n")
+        rec = Rec()
+        g.add_writer(rec)
+        m = RefMachine(tokens())
+        done = 0
+        for k, (name, a) in enumerate(zip(seq, vals)):
+            tool_before, coolant_before = m.tool_on, m.coolant_on
+            e = attempt(HIST[name], g, a)
+            try:
+                lines = split_lines(rec.text())
+                first_event = len(m.events)
+                for line in lines[done:]:
+                    m.run_line(line)
+                done = len(lines)
+            except Malformed as mf:
+                return V("history-malformed-output", str(mf))
+            ctx = lambda: f"after {seq[:k + 1]} with values {vals[:k + 1]!r}: output={rec.text()!r}"  # noqa: E731
+            for kind, info in m.events[first_event:]:
+                if (kind == "tool_start" and info[1]) or (kind == "coolant_start" and info[1]) or \
+                        (kind == "tool_change" and (info[0] or info[1])) or \
+                        (kind == "halt" and (info[1] or info[2])):
+                    return V("history-unsafe-code-emitted", lambda: f"{kind} {info!r}; {ctx()}")
+            if e is not None:
+                name_e = exc_name(e)
+                if name_e == "ToolStateError" and not tool_before:
+                    return V("history-spurious-ToolStateError", ctx)
+                if name_e == "CoolantStateError" and not coolant_before:
+                    return V("history-spurious-CoolantStateError", ctx)
+                if name_e not in ("ToolStateError", "CoolantStateError", "ValueError"):
+                    return V("history-unexpected-exception", lambda: f"{name_e}: {e}; {ctx()}")
+            if bool(g.state.is_tool_active) != m.tool_on or bool(g.state.is_coolant_active) != m.coolant_on:
+                return V("history-flags-diverged",
+                         lambda: f"state tool={g.state.is_tool_active} coolant={g.state.is_coolant_active}, "
+                                 f"program tool={m.tool_on} coolant={m.coolant_on}; {ctx()}")
+        reached("accepted")
+        return None
+
+    if len(seq) == 2:
+        def h(a: Finite, b: Finite):
+            return core([a, b])
+    else:
+        def h(a: Finite, b: Finite, c: Finite):
+            return core([a, b, c])
+    return h
+
+
 def cells(tier):
     out = []
+    import itertools
+    from .c07 import HIST
+    core3 = ["tool_on", "tool_off", "power_on", "power_off", "coolant_on", "coolant_off", "tool_change",
+             "halt(bed,S)", "emergency", "move(z,S)"]
+    hseqs = list(itertools.product(list(HIST), repeat=2)) + list(itertools.product(core3, repeat=3))
+    for seq in hseqs:
+        out.append(Cell("history|" + ",".join(seq), _make_history(seq),
+                        budget_s=90 if tier == "quick" else 300, must_reach=("accepted",),
+                        entry="GCodeBuilder (history from a fresh builder)"))
     for step in STEPS:
         for tool in TOOLS:
             for coolant in COOLANTS:
